@@ -19,3 +19,18 @@ func VerifNewPacketizer(
 		Timestamp: timestamp, ClockRate: clockRate, timegen: now,
 	}
 }
+
+// VerifSetRand replaces the package's random generator (the source of NewRandomSequencer's start
+// value and of NewPacketizer's initial timestamp) and returns a function that restores it.
+// It exists only under the verif build tag, so that the harness can drive the boundary draws.
+func VerifSetRand(g interface {
+	Intn(n int) int
+	Uint32() uint32
+	Uint64() uint64
+	GenerateString(n int, runes string) string
+}) (restore func()) {
+	old := globalMathRandomGenerator
+	globalMathRandomGenerator = g
+
+	return func() { globalMathRandomGenerator = old }
+}
